@@ -16,9 +16,9 @@ func init() {
 		Decides: "the serialisation skeleton linearizability rests on: Writer.root is swapped only by functions that run in the single introducer goroutine, before any goroutine is started, or after all of them were waited for; the three introduction channels are received from in exactly one function, started by exactly one go statement; in the function that applies a batch, the obsoletions applied to each CURRENT root element are the optimistic ones looked up by that element's id or, on a lookup miss, recomputed with DocsMatchingTerms on that element, and a recomputation failure publishes nothing; every path of the apply function closes the applied channel exactly once, after the root swap unless an error was sent; swap and reader acquisition are atomic with respect to rootLock (C02.R3, C04.R4).",
 		NotCovered: "linearizability of recorded histories (runtime); fairness of the select; the content of the segments.",
 	})
-	registerRule(&RuleInfo{ID: "C05.R1", Title: "single swap point, single consumer of introductions", Floor: 8, Run: ruleC05R1,
+	registerRule(&RuleInfo{ID: "C05.R1", Title: "single swap point, single consumer of introductions", Floor: 6, Run: ruleC05R1,
 		Covers: "who-may-call the root swap; who receives from the introduction channels; go statements"})
-	registerRule(&RuleInfo{ID: "C05.R2", Title: "stale optimistic obsoletes are re-checked against the current root", Floor: 3, Run: ruleC05R2,
+	registerRule(&RuleInfo{ID: "C05.R2", Title: "stale optimistic obsoletes are re-checked against the current root", Floor: 2, Run: ruleC05R2,
 		Covers: "data flow of the delta applied to each carried root element in the batch-apply function"})
 	registerRule(&RuleInfo{ID: "C05.R3", Title: "the applied channel is closed exactly once, after the root swap", Floor: 1, Run: ruleC05R3,
 		Covers: "path-sensitive typestate of every function that applies a segmentIntroduction"})
